@@ -12,6 +12,7 @@
 -/
 import YalafiVerif.Proofs.Shell
 import YalafiVerif.Proofs.Reports
+import YalafiVerif.Properties.SystemStmt
 namespace Yalafi
 
 theorem C15_mapMatch_total (cm : List Int) (latex : Str) (offset len : Int) (h : cm ≠ []) :
